@@ -1161,7 +1161,8 @@ class _AnnotationsAtLoopHead:
         return default
 
 
-@harness('E2p', targets='kopf._cogs.configs.diffbase.DiffBaseStorage.build', props=['C04', 'C05', 'C14'],
+@harness('E2p', targets='kopf._cogs.configs.diffbase.DiffBaseStorage.build', props=['C04', 'C05', 'C14', 'C10', 'C15', 'C03'],
+         prop_clauses={'C10': ['dropped_iff_under_marked_prefix', 'drops_only_the_scanned_key'], 'C15': ['dropped_iff_under_marked_prefix', 'drops_only_the_scanned_key']},
          clauses=['dropped_iff_under_marked_prefix', 'drops_only_the_scanned_key', 'prefixes_come_from_detector'],
          canaries=['canary.drops_everything', 'canary.drops_nothing'],
          trusted=['copy.deepcopy / dicts.cherrypick / dicts.remove: structure-preserving helpers, exercised for real in E1'])
